@@ -11,6 +11,7 @@ import J1939.Lemmas.Const21
 import J1939.Model.Dll22
 import J1939.Lemmas.Cons22
 import J1939.Props.C07
+import J1939.Props.C01
 namespace J1939.Props.C10
 open J1939 J1939.Gen J1939.Dll21
 
@@ -94,6 +95,31 @@ theorem c10_abort_releases (cfg : Cfg) (s : St) (now : Nat) (mid : MessageId) (d
     have : ¬ now > now' := by omega
     have h0' : now ≠ 0 := by omega
     simp [this, h0', S_FINISHED, S_WAITING_CTS, S_SENDING_IN_CTS, S_SENDING_BM]
+
+/-- frame rule: `send_pgn` (any length, accepted or refused) touches at most the send record under its own key and
+    never the receive table -/
+theorem sendPgn_get?_other (cfg : Cfg) (s : St) (now dp pf ps prio sa : Nat) (data : List Nat) (k : Nat)
+    (hk : k ≠ Tp21.buffer_hash sa (destOf pf ps)) :
+    (sendPgn cfg s now dp pf ps prio sa data).1.st.snd.get? k = s.snd.get? k ∧
+    (sendPgn cfg s now dp pf ps prio sa data).1.st.rcv = s.rcv := by
+  unfold sendPgn destOf at *
+  refine ⟨?_, ?_⟩ <;> (repeat' split) <;> simp_all [PyDict.get?_set_ne] <;> (repeat' split) <;> simp_all [PyDict.get?_set_ne]
+
+/-- A SEND NEVER DISTURBS ANOTHER PAIR'S TRANSFER: whatever `send_pgn` is called with, the transfer in flight between any
+    OTHER (source, destination) pair keeps its record unchanged (uses the injectivity of the session key regenerated
+    from the source, `C01.c01_session_key_injective`) and no inbound session is touched -/
+theorem c10_send_keeps_other_pairs (cfg : Cfg) (s : St) (now dp pf ps prio sa : Nat) (data : List Nat) (sa' da' : Nat)
+    (h1 : sa < 256) (h2 : destOf pf ps < 256) (h3 : sa' < 256) (h4 : da' < 256) (hne : ¬ (sa' = sa ∧ da' = destOf pf ps)) :
+    (sendPgn cfg s now dp pf ps prio sa data).1.st.snd.get? (Tp21.buffer_hash sa' da') = s.snd.get? (Tp21.buffer_hash sa' da') ∧
+    (sendPgn cfg s now dp pf ps prio sa data).1.st.rcv = s.rcv := by
+  apply sendPgn_get?_other
+  intro h
+  exact hne (J1939.Props.C01.c01_session_key_injective sa' da' sa (destOf pf ps) h3 h4 h1 h2 h)
+
+/-- hypotheses satisfiable and the conclusion non-trivial: 0x80 → 0x90 is accepted while 0x80 → 0x91 is in flight -/
+example : destOf 239 0x90 < 256 ∧ ¬ ((0x80 : Nat) = 0x80 ∧ (0x91 : Nat) = destOf 239 0x90) ∧
+    (sendPgn {} (sendPgn {} {} 1000 0 239 0x91 6 0x80 (List.range 20)).1.st 2000 0 239 0x90 6 0x80 (List.range 30)).2 = true := by
+  refine ⟨by decide, by decide, by decide⟩
 
 end J1939.Props.C10
 
